@@ -32,8 +32,7 @@ def Hist.entryRead (h : Hist) (n : Nat) : Option Entry :=
     | "get", "ok", .ent en true => some en
     | _, _, _ => none)
 
-def storedOf (e : Entry) : Spec.Stored :=
-  { status := e.resp.status, header := e.resp.header, requestTime := e.requestedAt, responseTime := e.receivedAt }
+def storedOf (e : Entry) : Spec.Stored := Spec.storedOfEntry e
 
 def statusValues (hd : Header) : List Str := Header.values hd sStatusHeader
 
@@ -88,16 +87,16 @@ def monC01 (h : Hist) : Option String :=
     | some e =>
       let s := storedOf e
       let now := x.res.t0
-      if Spec.isFresh parse s now then none
+      if Spec.isFresh Spec.rfc parse s now then none
       else
-        if Spec.hasDirective ri.req.header (str% "only-if-cached") then none
-        else if Spec.maxStaleCovers ri.req.header (Spec.currentAge parse s now) (Spec.freshnessLifetime parse s) then none
+        if Spec.hasDirective Spec.rfc ri.req.header (str% "only-if-cached") then none
+        else if Spec.maxStaleCovers Spec.rfc ri.req.header (Spec.currentAge parse s now) (Spec.freshnessLifetime Spec.rfc parse s) then none
         else
-          let swrOk := match Spec.directiveSeconds s.header (str% "stale-while-revalidate") with
-            | some w => Spec.withinWindow parse s now w && !x.bgCalls.isEmpty
+          let swrOk := match Spec.directiveSeconds Spec.rfc s.header (str% "stale-while-revalidate") with
+            | some w => Spec.withinWindow Spec.rfc parse s now w && !x.bgCalls.isEmpty
             | none => false
           if swrOk then none
-          else some s!"exchange {ri.n}: stale response served without origin contact: age={Spec.currentAge parse s now} lifetime={Spec.freshnessLifetime parse s} (ns), request [{showHdrs ri.req.header}], stored [{showHdrs s.header}]"
+          else some s!"exchange {ri.n}: stale response served without origin contact: age={Spec.currentAge parse s now} lifetime={Spec.freshnessLifetime Spec.rfc parse s} (ns), request [{showHdrs ri.req.header}], stored [{showHdrs s.header}]"
 
 /-! ### C02 -/
 def condHeadersOk (reqH storedH callH : Header) : Bool :=
@@ -120,8 +119,8 @@ def monC02 (h : Hist) : Option String :=
     | some e =>
       let s := storedOf e
       let now := x.res.t0
-      let strict := Spec.strictValidate parse ri.req.header s now
-      let soft := Spec.requestMaxAgeExceeded parse ri.req.header s now
+      let strict := Spec.strictValidate Spec.rfc parse ri.req.header s now
+      let soft := Spec.requestMaxAgeExceeded Spec.rfc parse ri.req.header s now
       let servedStored := x.fromStore && x.token == tokenOf e.resp.body
       -- a validation request, when one is sent for this entry, is the client's request + validators
       let condBad := match x.fgCalls.head? with
@@ -131,12 +130,12 @@ def monC02 (h : Hist) : Option String :=
       if condBad.isSome then condBad else
       if servedStored && !x.got304 h then
         if strict then
-          some s!"exchange {ri.n}: stored response that requires validation returned without a 304 in this exchange (request [{showHdrs ri.req.header}], stored [{showHdrs s.header}], age={Spec.currentAge parse s now}, lifetime={Spec.freshnessLifetime parse s})"
+          some s!"exchange {ri.n}: stored response that requires validation returned without a 304 in this exchange (request [{showHdrs ri.req.header}], stored [{showHdrs s.header}], age={Spec.currentAge parse s now}, lifetime={Spec.freshnessLifetime Spec.rfc parse s})"
         else if soft && x.fgCalls.isEmpty then
           some s!"exchange {ri.n}: request max-age exceeded but the stored response was returned without contacting the origin (request [{showHdrs ri.req.header}], age={Spec.currentAge parse s now})"
         else
           -- fields named by a qualified no-cache are not replayed without validation
-          match (Spec.noCacheFields s.header).find? (fun f => Header.has x.res.hdr (canonicalHeaderKey f)) with
+          match (Spec.noCacheFields Spec.rfc s.header).find? (fun f => Header.has x.res.hdr (canonicalHeaderKey f)) with
           | some f => some s!"exchange {ri.n}: field {shw f} named by a qualified no-cache was replayed without validation"
           | none => none
       else if (strict || soft) && x.res.kind == "resp" && !servedStored && !isSynth504 x then
@@ -150,12 +149,12 @@ def monC02 (h : Hist) : Option String :=
 def replyForbidsStoring (ri : ReqIn) (rp : ReplyIn) : Option String :=
   let hd := rp.resp.header
   let st := rp.resp.status
-  if Spec.hasDirective ri.req.header (str% "no-store") then some "request no-store"
-  else if Spec.hasDirective hd (str% "no-store") then some "response no-store"
+  if Spec.hasDirective Spec.rfc ri.req.header (str% "no-store") then some "request no-store"
+  else if Spec.hasDirective Spec.rfc hd (str% "no-store") then some "response no-store"
   else if !isPlainGet ri then some "not a plain GET"
   else if st < 200 || st = 206 || st = 304 then some s!"status {st}"
-  else if Spec.hasDirective hd (str% "must-understand") && !Generated.statusUnderstood.contains st then some "must-understand with a status that is not understood"
-  else if !Spec.hasDirective hd (str% "max-age") && !Header.has hd sExpires && !Spec.hasDirective hd (str% "public") &&
+  else if Spec.hasDirective Spec.rfc hd (str% "must-understand") && !Generated.statusUnderstood.contains st then some "must-understand with a status that is not understood"
+  else if !Spec.hasDirective Spec.rfc hd (str% "max-age") && !Header.has hd sExpires && !Spec.hasDirective Spec.rfc hd (str% "public") &&
           !Spec.heuristicallyCacheable.contains st then some "no explicit freshness and not heuristically cacheable"
   else if rp.bodyFail ≥ 0 && !rp.resp.body.isEmpty then some "body could not be read completely"
   else none
@@ -226,7 +225,7 @@ def monC10 (h : Hist) : Option String :=
         -- store faults: served by the origin, correct response
         let faulted := (h.faults.any fun f => f.n = ri.n && f.stream == "fg") ||
           ((h.stores ri.n "fg").any fun s => s.op == "get" && s.result == "err")
-        if faulted && x.res.kind == "resp" && !Spec.hasDirective ri.req.header (str% "only-if-cached") then
+        if faulted && x.res.kind == "resp" && !Spec.hasDirective Spec.rfc ri.req.header (str% "only-if-cached") then
           let readFault := (h.stores ri.n "fg").any fun s => s.op == "get" &&
             (s.result == "err" || (match s.val with | .raw _ => true | .ent _ false => true | _ => false))
           if readFault && x.fromStore && x.fgCalls.isEmpty then
@@ -259,7 +258,7 @@ def monC11 (h : Hist) : Option String :=
         else if v = (str% "REVALIDATED") && !(x.fromStore && x.got304 h) then some s!"exchange {ri.n}: REVALIDATED without a 304 in this exchange"
         else if v = (str% "STALE") && !x.fromStore then some s!"exchange {ri.n}: STALE but the response is not from the store"
         else if v = (str% "STALE") && x.fgCalls.isEmpty &&
-                (match x.entry with | some e => Spec.isFresh parse (storedOf e) x.res.t0 | none => false) then
+                (match x.entry with | some e => Spec.isFresh Spec.rfc parse (storedOf e) x.res.t0 | none => false) then
           some s!"exchange {ri.n}: STALE but the stored response is fresh and no validation failed"
         else if (v = (str% "MISS") || v = (str% "BYPASS")) && !ownReply then some s!"exchange {ri.n}: {shw v} but the response is not this exchange's origin reply (nor the synthesised 504)"
         else
@@ -294,21 +293,21 @@ def monC13 (h : Hist) : Option String :=
     let s := storedOf e
     let now := c.t1
     let servedStored := x.fromStore && x.token == tokenOf e.resp.body
-    let strict := Spec.strictValidate parse ri.req.header s x.res.t0
-    let ns := [Spec.directiveSeconds s.header (str% "stale-if-error"), Spec.directiveSeconds ri.req.header (str% "stale-if-error")].filterMap id
-    let st := Spec.staleness parse s now
-    let simpleReq := !Spec.hasDirective ri.req.header (str% "max-age") && !Spec.hasDirective ri.req.header (str% "min-fresh")
+    let strict := Spec.strictValidate Spec.rfc parse ri.req.header s x.res.t0
+    let ns := [Spec.directiveSeconds Spec.rfc s.header (str% "stale-if-error"), Spec.directiveSeconds Spec.rfc ri.req.header (str% "stale-if-error")].filterMap id
+    let st := Spec.staleness Spec.rfc parse s now
+    let simpleReq := !Spec.hasDirective Spec.rfc ri.req.header (str% "max-age") && !Spec.hasDirective Spec.rfc ri.req.header (str% "min-fresh")
     if errStatusOther && servedStored then
       some s!"exchange {ri.n}: stored response returned for a failure status outside 500/502/503/504"
     else if failed then
       if servedStored then
         if strict then some s!"exchange {ri.n}: stale-if-error applied although no-cache / must-revalidate demands validation"
         else if ns.isEmpty then some s!"exchange {ri.n}: stored response returned on failure without any stale-if-error on the stored response or the request"
-        else if simpleReq && ns.all (fun n => !Spec.withinWindow parse s now n) then some s!"exchange {ri.n}: stale-if-error applied outside its window: staleness {st} ns, windows {ns}"
+        else if simpleReq && ns.all (fun n => !Spec.withinWindow Spec.rfc parse s now n) then some s!"exchange {ri.n}: stale-if-error applied outside its window: staleness {st} ns, windows {ns}"
         else if !(statusValues x.res.hdr == [str% "STALE"]) then some s!"exchange {ri.n}: stale-if-error response not marked STALE"
         else none
       else
-        if !strict && simpleReq && ns.any (fun n => Spec.withinWindow parse s now n) && !Spec.isFresh parse s now then
+        if !strict && simpleReq && ns.any (fun n => Spec.withinWindow Spec.rfc parse s now n) && !Spec.isFresh Spec.rfc parse s now then
           some s!"exchange {ri.n}: validation failed inside the stale-if-error window (staleness {st} ns, windows {ns}) but the stored response was not returned"
         else none
     else none
@@ -318,12 +317,12 @@ def monC18 (h : Hist) : Option String :=
   let parse := h.glue.parseTime
   h.reqs.findSome? fun ri => do
     let x ← h.ex ri
-    if !(isPlainGet ri && Spec.hasDirective ri.req.header (str% "only-if-cached")) then none else
+    if !(isPlainGet ri && Spec.hasDirective Spec.rfc ri.req.header (str% "only-if-cached")) then none else
     if !x.fgCalls.isEmpty || !x.bgCalls.isEmpty then some s!"exchange {ri.n}: only-if-cached request caused an origin call"
     else if x.res.kind != "resp" then some s!"exchange {ri.n}: only-if-cached request did not get a response"
     else if x.fromStore then
       match x.entry with
-      | some e => if Spec.strictValidate parse ri.req.header (storedOf e) x.res.t0 then
+      | some e => if Spec.strictValidate Spec.rfc parse ri.req.header (storedOf e) x.res.t0 then
           some s!"exchange {ri.n}: only-if-cached answered with a stored response that requires validation" else none
       | none => some s!"exchange {ri.n}: only-if-cached answered from the store without reading an entry"
     else if x.res.status = 504 then none
